@@ -1867,3 +1867,43 @@ Definition xc_st0 : cluster := (xs_leader, [xw_F2], [xs_follower], []).
 Definition xc_isched : list (list iact * list nat) := xc_gen 36 0 xc_st0.
 Definition xc_sched : list (list oact * list (N * msg)) :=
   match res_sched [1; 2] xc_st0 xc_isched with Some s => s | None => [] end.
+
+Lemma xc_start : closed_start xs_leader [xw_F2] [xs_follower].
+Proof.
+  split; [exact xw_start|]. cbn [map].
+  split; [left; reflexivity|]. split; [constructor; [left; reflexivity|constructor]|].
+  constructor; [|constructor].
+  split; [intros [H|[H|[]]]; discriminate|]. split; [reflexivity|].
+  split; [vm_compute; discriminate|]. split; [discriminate|].
+  split; [split; [vm_compute; discriminate|vm_compute; reflexivity]|].
+  split; [intros id H; vm_compute in H; discriminate|reflexivity].
+Qed.
+
+Lemma xc_resolved : res_sched [1; 2] xc_st0 xc_isched = Some xc_sched.
+Proof. vm_compute. reflexivity. Qed.
+
+Lemma xc_sched_ok : closed_sched xs_leader [xw_F2] [xs_follower] xc_sched.
+Proof. unfold closed_sched. apply (res_sched_ok [2] 1 xc_isched xc_st0 xc_sched). exact xc_resolved. Qed.
+
+(* thirty rounds cut off: the outsider has pre-campaigned (its requests sit in the pool
+   undelivered) and is a pre-candidate of the unchanged term 2 ... *)
+Lemma xc_isolated : exists L' F' O' pool',
+  closed_rounds (firstn 30 xc_sched) xc_st0 = Ok (L', [F'], [O'], pool') /\
+  r_state L' = Leader /\ r_term L' = 2 /\
+  r_state O' = PreCandidate /\ r_term O' = 2 /\
+  length (filter (fun m => (m_type m =? MsgRequestPreVote) && (m_from m =? 3)) pool') = 4%nat /\
+  Forall (fun m => (m_type m =? MsgRequestPreVote) && (m_from m =? 3) = true -> m_term m = 3) pool'.
+Proof.
+  vm_compute. do 4 eexists. split; [reflexivity|]. repeat split.
+  repeat (constructor; [intros H; first [discriminate H|reflexivity]|]). constructor.
+Qed.
+
+(* ... six rounds after rejoining: leader and follower undisturbed in term 2, the
+   outsider back as a follower of leader 1 in term 2 *)
+Lemma xc_run : exists L' F' O' pool',
+  closed_rounds xc_sched xc_st0 = Ok (L', [F'], [O'], pool') /\
+  r_state L' = Leader /\ r_term L' = 2 /\
+  r_state F' = Follower /\ r_term F' = 2 /\ r_vote F' = 1 /\
+  r_state O' = Follower /\ r_term O' = 2 /\ r_leader_id O' = 1 /\
+  length xc_sched = 36%nat.
+Proof. vm_compute. do 4 eexists. repeat split; reflexivity. Qed.
